@@ -149,3 +149,20 @@ def axes_subset(ndim, allow_none=True, nonempty=True, negative=True):
                 out.append(a)
         return out
     return _s()
+
+
+LAYOUTS = ("c", "c", "f", "strided", "revstride")
+
+
+def relayout(a, kind):
+    """Same values, different memory layout (C / Fortran order / every-other-element view / negative stride)."""
+    a = np.asarray(a)
+    if kind == "f" and a.ndim >= 2:
+        return np.asfortranarray(a)
+    if kind == "strided" and a.ndim >= 1 and a.shape[-1] >= 1:
+        big = np.zeros(a.shape[:-1] + (2 * a.shape[-1],), dtype=a.dtype)
+        big[..., ::2] = a
+        return big[..., ::2]
+    if kind == "revstride" and a.ndim >= 1:
+        return np.ascontiguousarray(a[::-1])[::-1]
+    return np.ascontiguousarray(a)
